@@ -6,7 +6,7 @@ from harness import worlda
 PROP = "C17"
 CONFIG = worlda.base_config(
     rule="seeded sequential histories of CREATE/DELETE/RENAME (leaf, subtree, INBOX, onto existing, into own subtree)/SUBSCRIBE/UNSUBSCRIBE over a small name "
-    "alphabet (spaces, regex metacharacters, INBOX case variants, SPECIAL-USE names; depth <= 3) with APPENDs so that RENAME has content to keep, "
+    "alphabet (spaces, regex metacharacters, INBOX case variants, mailboxes below inbox, SPECIAL-USE names; depth <= 3) with APPENDs so that RENAME has content to keep, "
     "LIST/LSUB reference x pattern combinations and LIST-EXTENDED forms, orderly restarts interleaved. LIST/LSUB are compared with a namespace "
     "model using an independent wildcard matcher; refused commands must leave the on-disk tree unchanged; renamed subtrees are probed for "
     "messages/UIDs/flags. non-trivial = >=1 namespace mutation acknowledged OK; distinct = op-kind signatures",
@@ -23,7 +23,7 @@ W = {
 def profile(r, tier, index):
     return {
         "mailboxes": ["inbox", "a", "a/b"][: r.randint(1, 3)], "sessions": r.randint(1, 2), "weights": W, "init_hi": 3,
-        "ops_lo": 8, "ops_hi": 40 if tier == "thorough" else 26, "mode": "sequential", "examine_p": 0.1, "gc_p": 0.3,
+        "ops_lo": 8, "ops_hi": 40 if tier == "thorough" else 26, "mode": "sequential", "examine_p": 0.1, "gc_p": 0.3, "inbox_children_p": 0.6,
     }
 
 
